@@ -827,12 +827,23 @@ func execOp(e *env, i int, o *Op) []Obs {
 	return []Obs{ol(), ol()}
 }
 
-// content drops the validatorsStatModified flag (run-time state, not content) from a view.
+// content drops what is not content from a view: the validatorsStatModified flag
+// (run-time state) and the raw in-memory validator index (bookkeeping: between
+// flushes GetValidatorsForUpdate may shrink it to the persisted index and Copy
+// re-adds dirty validators; after a flush it is the set of stored validators).
 func content(v Obs) Obs {
 	if len(v.L) != 3 || len(v.L[1].L) != 5 {
 		return v
 	}
-	return ol(v.L[0], ol(v.L[1].L[0], v.L[1].L[1], v.L[1].L[2], v.L[1].L[3]), v.L[2])
+	return ol(v.L[0], ol(v.L[1].L[0], v.L[1].L[2], v.L[1].L[3]), v.L[2])
+}
+
+// copyView: what a copy must share with its original: content plus the modified flag.
+func copyView(v Obs) Obs {
+	if len(v.L) != 3 || len(v.L[1].L) != 5 {
+		return v
+	}
+	return ol(v.L[0], ol(v.L[1].L[0], v.L[1].L[2], v.L[1].L[3], v.L[1].L[4]), v.L[2])
 }
 
 func runHistory(h *History) *runResult {
@@ -899,9 +910,12 @@ func runHistory(h *History) *runResult {
 		}
 		res.checked[a.Kind]++
 		switch a.Kind {
-		case "eqview", "eqroots", "eqcontent":
+		case "eqview", "eqroots", "eqcontent", "eqcopy":
 			if a.Kind == "eqcontent" {
 				x, y = content(x), content(y)
+			}
+			if a.Kind == "eqcopy" {
+				x, y = copyView(x), copyView(y)
 			}
 			if d := diffObs(x, y); d != "" {
 				detail := fmt.Sprintf("outputs %d and %d differ at %s", a.I, a.J, d)
@@ -1022,7 +1036,25 @@ func (g *genr) vid() uint64 {
 	return uVals[g.r.Intn(len(uVals))]
 }
 
-func (g *genr) newValRec(id uint64) *Val {
+// bigInvalid: IsInvalid() looks at the low 64 bits only; such a validator is deleted
+// by the flush although its token is subtracted from the statistics.  Together
+// with a RemoveValidator'd validator (subtracted twice, clamped) the statistics
+// would depend on Go's map order, so the generator keeps the two apart.
+func bigInvalid(v *state.Validator) bool { return v != nil && v.IsInvalid() && (v.Token.Sign() != 0 || v.Stake.Sign() != 0) }
+
+func (g *genr) anyBigInvalid(hd uint64) bool {
+	st := g.e.hs[hd]
+	for _, id := range uVals {
+		if bigInvalid(st.GetValidatorByMainAddr(valAddr(id))) {
+			return true
+		}
+	}
+	return false
+}
+
+func (g *genr) newValRec(id uint64) *Val { return g.newValRecOn(0, id, false) }
+
+func (g *genr) newValRecOn(hd, id uint64, noBig bool) *Val {
 	stake := int64(g.r.Intn(6))
 	tok := new(big.Int).Mul(unit, big.NewInt(stake))
 	tok.Add(tok, big.NewInt(int64(g.r.Intn(3))))
@@ -1030,7 +1062,9 @@ func (g *genr) newValRec(id uint64) *Val {
 	case 0:
 		tok, stake = new(big.Int), 0
 	case 1:
-		tok, stake = new(big.Int).Lsh(big.NewInt(1), 64), 0 // Uint64() == 0
+		if !noBig {
+			tok, stake = new(big.Int).Lsh(big.NewInt(1), 64), 0 // Uint64() == 0
+		}
 	}
 	v := state.NewValidator(string([]byte{byte('a' + g.r.Intn(3))}), addrOf(g.acct()), addrOf(g.acct()), params.ValidatorRole(1+g.r.Intn(3)),
 		valKeys[id-1], g.r.Bytes(g.r.Intn(3)), tok, big.NewInt(stake), uint16(g.r.Intn(2)), uint16(g.r.Intn(100)), uint16(g.r.Intn(100)), uint8(g.r.Intn(2)))
@@ -1137,12 +1171,12 @@ func (g *genr) write(hd uint64) {
 		g.do(Op{K: "delegate", H: hd, A: d, B: id, Neg: neg, V: amt.String()})
 	case k < 69:
 		id := g.vid()
-		g.do(Op{K: "createval", H: hd, Val: g.newValRec(id)})
+		g.do(Op{K: "createval", H: hd, Val: g.newValRecOn(hd, id, g.removed[hd] > 0)})
 	case k < 78:
 		id := g.vid()
 		g.do(Op{K: "updateval", H: hd, Val: g.mutateVal(hd, id)})
 	case k < 80:
-		if g.removed[hd] == 0 {
+		if g.removed[hd] == 0 && !g.anyBigInvalid(hd) {
 			g.removed[hd]++
 			g.do(Op{K: "removeval", H: hd, A: g.vid()})
 		}
@@ -1246,7 +1280,7 @@ func (g *genr) tWalk() {
 			h2 := g.fresh()
 			c := g.do(Op{K: "copy", H: hd, H2: h2})
 			j := g.do(Op{K: "view", H: h2})
-			g.expect("eqview", i, j, c, "a copy differs from the original")
+			g.expect("eqcopy", i, j, c, "a copy differs from the original")
 			if len(live) < 4 {
 				live = append(live, h2)
 			}
@@ -1395,7 +1429,7 @@ func (g *genr) tCopy() {
 	ci := g.do(Op{K: "copy", H: 0, H2: c})
 	i1 := g.do(Op{K: "view", H: c})
 	i2 := g.do(Op{K: "view", H: 0})
-	g.expect("eqview", i0, i1, ci, "a copy differs from the original")
+	g.expect("eqcopy", i0, i1, ci, "a copy differs from the original")
 	g.expect("eqview", i0, i2, -1, "copying changed the original")
 	// the same suffix on both
 	start := len(g.h.Ops)
@@ -1432,7 +1466,7 @@ func (g *genr) tCopy() {
 		v0 = g.do(Op{K: "view", H: 0})
 	}
 	g.expect("eqroots", r0, r1, ci, "a copy and its original, after the same calls, commit to different roots")
-	g.expect("eqview", v0, v1, ci, "a copy and its original differ after the same calls")
+	g.expect("eqcopy", v0, v1, ci, "a copy and its original differ after the same calls")
 	for _, hd := range []uint64{0, c} {
 		h2 := g.fresh()
 		g.do(Op{K: "reopen", H: hd, H2: h2})
